@@ -497,9 +497,21 @@ namespace bloch::compiler {
                    isSubclassOf(actual.className, expected.className);
         }
 
-        // The class table does not record the type arguments a generic class passes to its base,
-        // so instantiations related by inheritance are matched by class name only.
-        return isSubclassOf(actual.className, expected.className);
+        // Generic instantiations: walk up from the actual type, substituting each class's type
+        // arguments into the base type it names, until the expected class is reached.
+        TypeInfo cur = actual;
+        for (int depth = 0; depth < 64; ++depth) {
+            if (cur.className == expected.className)
+                return typeEquals(expected, cur);
+            const ClassInfo* info = findClass(cur.className);
+            if (!info || info->base.empty())
+                return false;
+            if (!info->baseType.className.empty())
+                cur = substituteTypeParams(info->baseType, info->typeParams, cur.typeArgs);
+            else
+                cur = combine(ValueType::Unknown, info->base);
+        }
+        return false;
     }
 
     std::optional<int> SemanticAnalyser::conversionCost(const TypeInfo& expected,
@@ -1031,6 +1043,8 @@ namespace bloch::compiler {
                 m_currentTypeParams.push_back(pi);
                 info.typeParams.push_back(pi);
             }
+            if (clsNode->baseType && !info.base.empty())
+                info.baseType = typeFromAst(clsNode->baseType.get());
             if (info.name == "Object" && !info.typeParams.empty()) {
                 throw BlochError(ErrorCategory::Semantic, info.line, info.column,
                                  "class 'Object' cannot declare type parameters");
